@@ -13,6 +13,7 @@
 //!   donate <pair> <asset> <amount>                     plain transfer to the pair
 //!   fund <asset> <amount>                              plain transfer to the router
 //!   collect <pair>                                     CollectProtocolFees (anyone)
+//!   replace <pair> <b0> <b1>                           factory owner: RemovePair + CreatePair for the same assets, seeded with b0, b1
 //! Observation: `ok|err|panic [sim=… ex=… recv=…] p<i>=bal0,bal1,pend0,pend1,all0,all1,burn0,burn1 … r=b0,b1,b2,b3`
 use crate::common::*;
 use crate::engines::swapmath::pool_fee;
@@ -30,10 +31,12 @@ const AMT_CAP: u128 = 1u128 << 118;
 struct PairW {
     addr: Addr,
     a: [usize; 2],
+    fees: (u128, u128, u128),
 }
 
 struct World {
     app: App,
+    fac: Addr,
     router: Addr,
     pairs: Vec<PairW>,
     kinds: Vec<bool>, // true = native
@@ -219,7 +222,7 @@ fn build(kinds: Vec<bool>, specs: &[PairSpec]) -> Result<World, String> {
     let router = app
         .instantiate_contract(router_id, admin.clone(), &r::InstantiateMsg { terraswap_factory: fac.to_string() }, &[], "router", None)
         .map_err(es)?;
-    let mut w = World { app, router, pairs: vec![], kinds, tokens, minter, nrecv: 0 };
+    let mut w = World { app, fac: fac.clone(), router, pairs: vec![], kinds, tokens, minter, nrecv: 0 };
     for s in specs {
         let infos = [w.info(s.a[0]), w.info(s.a[1])];
         w.app
@@ -269,7 +272,7 @@ fn build(kinds: Vec<bool>, specs: &[PairSpec]) -> Result<World, String> {
                 &funds,
             )
             .map_err(es)?;
-        w.pairs.push(PairW { addr: pair, a: s.a });
+        w.pairs.push(PairW { addr: pair, a: s.a, fees: s.fees });
     }
     Ok(w)
 }
@@ -657,6 +660,70 @@ impl Quotes {
         format!("{} {}", status(&out), w.show_state())
     }
 
+    /// the factory owner removes the pair and creates a new one for the same two assets (same fees) with
+    /// fresh liquidity; from now on the registry names the new contract
+    fn do_replace(&mut self, pi: &str, b0: &str, b1: &str) -> String {
+        let w = self.w.as_mut().unwrap();
+        let (i, b0, b1) = match (pi.parse::<usize>(), b0.parse::<u128>(), b1.parse::<u128>()) {
+            (Ok(i), Ok(x), Ok(y)) if i < w.pairs.len() => (i, x, y),
+            _ => return "bad-op".into(),
+        };
+        let admin = Addr::unchecked("admin");
+        let a = w.pairs[i].a;
+        let fees = w.pairs[i].fees;
+        let infos = [w.info(a[0]), w.info(a[1])];
+        let fac = w.fac.clone();
+        let r: Result<(), String> = (|| {
+            w.app.execute_contract(admin.clone(), fac.clone(), &f::ExecuteMsg::RemovePair { asset_infos: infos.clone() }, &[]).map_err(es)?;
+            w.app
+                .execute_contract(
+                    admin.clone(),
+                    fac.clone(),
+                    &f::ExecuteMsg::CreatePair { asset_infos: infos.clone(), pool_fees: pool_fee(fees.0, fees.1, fees.2), pair_type: PairType::ConstantProduct, token_factory_lp: false },
+                    &[],
+                )
+                .map_err(es)?;
+            let pi: PairInfo = w.app.wrap().query_wasm_smart(&fac, &f::QueryMsg::Pair { asset_infos: infos.clone() }).map_err(|x| format!("{x}"))?;
+            let pair = Addr::unchecked(pi.contract_addr);
+            let lp = Addr::unchecked("lprovider");
+            let bal = [b0, b1];
+            let mut funds: Vec<Coin> = vec![];
+            for k in 0..2 {
+                w.mint(&lp, a[k], bal[k]);
+                if w.kinds[a[k]] {
+                    funds.push(Coin { denom: DENOMS[a[k]].into(), amount: bal[k].into() });
+                } else {
+                    let t = w.tokens[a[k]].clone().unwrap();
+                    w.app
+                        .execute_contract(lp.clone(), t, &Cw20ExecuteMsg::IncreaseAllowance { spender: pair.to_string(), amount: bal[k].into(), expires: None }, &[])
+                        .map_err(es)?;
+                }
+            }
+            funds.sort_by(|x, y| x.denom.cmp(&y.denom));
+            w.app
+                .execute_contract(
+                    lp.clone(),
+                    pair.clone(),
+                    &p::ExecuteMsg::ProvideLiquidity {
+                        assets: [Asset { info: infos[0].clone(), amount: b0.into() }, Asset { info: infos[1].clone(), amount: b1.into() }],
+                        slippage_tolerance: None,
+                        receiver: None,
+                    },
+                    &funds,
+                )
+                .map_err(es)?;
+            w.pairs[i].addr = pair;
+            Ok(())
+        })();
+        match r {
+            Ok(()) => format!("ok {}", w.show_state()),
+            Err(e) => {
+                eprintln!("quotes: replace failed: {e}");
+                std::process::exit(3)
+            }
+        }
+    }
+
     // ------------------------------------------------------------------ generator
     fn gen_init(&mut self, rng: &mut Rng) -> String {
         let kinds = if rng.chance(2, 3) {
@@ -788,6 +855,7 @@ impl Engine for Quotes {
             ("donate", 4) => self.do_transfer(Some(ws[1]), ws[2], ws[3]),
             ("fund", 3) => self.do_transfer(None, ws[1], ws[2]),
             ("collect", 2) => self.do_collect(ws[1]),
+            ("replace", 4) => self.do_replace(ws[1], ws[2], ws[3]),
             _ => "bad-op".into(),
         }
     }
@@ -844,8 +912,14 @@ impl Engine for Quotes {
             let pi = rng.below(np as u64) as usize;
             let a = if rng.chance(1, 10) { rng.below(NA as u64) as usize } else { w.pairs[pi].a[rng.below(2) as usize] };
             format!("donate {pi} {a} {}", rng.amount(90).min(AMT_CAP))
-        } else {
+        } else if x < 97 {
             format!("collect {}", rng.below(np as u64))
+        } else {
+            // the factory owner replaces a pair by a new one for the same assets
+            let pi = rng.below(np as u64) as usize;
+            let st = w.pair_state(pi);
+            let near = |rng: &mut Rng, v: u128| -> u128 { (v / 2 + rng.u128() % v.max(2)).clamp(4096, AMT_CAP) };
+            format!("replace {pi} {} {}", near(rng, st[0].max(4096)), near(rng, st[1].max(4096)))
         };
         Some(body)
     }
